@@ -79,6 +79,9 @@ impl Writer {
             }
 //@hint before <<<let frozen_reader = FrozzenReader {>>>
             let ghost sel = to_insert@; let ghost rest = descendants@;
+            // C14 / C20 (progress; defect F8): the batch the new sub-tree is made of is larger than one bucket unless it is the whole
+            // descendant -- otherwise the sub-tree is one bucket again, the rest is put back into it and the same bucket is queued forever
+            proof { assert(rest =~= Set::<u32>::empty() || sel.len() > cap || cap == usize::MAX); }
 //@hint before <<<let (root_id, nb_new_tree_nodes) =>>>
             let ghost tk = (tmp_nodes.taken())(i);
             proof {
